@@ -205,9 +205,11 @@ class LibMixin:
         if callee.startswith("sync/atomic."):
             m = callee.rsplit(".", 1)[1]
             self.models_used.add("sync/atomic %s (a load returns an arbitrary value: other goroutines may store at any time)" % callee.replace("sync/atomic.", ""))
+            avs, ats = [], []
             for a in args:
                 try:
-                    self.ev(a, st)
+                    avs.append(self.ev(a, st))
+                    ats.append(self.T(a))
                 except Unsupported:
                     pass
             fld = ""
@@ -215,6 +217,8 @@ class LibMixin:
             if fx is not None and fx.get("k") == "SelectorExpr":
                 fld = ":" + fx["Sel"]["Name"]
             nm = "atomic." + m + fld
+            if len(avs) == len(args) and not self.spec:
+                self.record_call_values(st, nm, avs, ats)
             self.trace_event(st, nm)
             t = self.T(e) if "t" in e else None
             if t is None or (t.under().k == "tuple" and not t.under().d.get("elems")):
